@@ -427,8 +427,11 @@ func c18GenKids(r *core.Rng, kids []*snode, fill int) []*dnode {
 				}
 				n := r.Range(lo, hi)
 				d := &dnode{name: k.name}
+				// entries in an order that is not the sorted order of their keys ("k10" sorts before "k2")
+				keyPool := []string{"k3", "k10", "k1", "k2", "k05", "K4"}
+				off := r.Intn(len(keyPool))
 				for i := 0; i < n; i++ {
-					kv := fmt.Sprintf("k%d", i+1)
+					kv := keyPool[(off+i)%len(keyPool)]
 					e := &dnode{name: kv, kids: []*dnode{{name: "k", vals: []string{kv}}}}
 					e.kids = append(e.kids, c18GenKids(r, k.kids, fill)...)
 					d.kids = append(d.kids, e)
